@@ -64,7 +64,7 @@ def build_model(spec, fresh=False):
         t = build_table(spec)
         kw = dict(top_role=t['top_role'], concept_role=t['concept_role'],
                   roles={r: {} for r in t['roles']}, normalizations=t['normalizations'],
-                  reifications=[tuple(r) for r in t['reifications']])
+                  reifications=(tuple(r) for r in t['reifications']))       # documented as Iterable: a one-shot iterator will do
         if t['noop']:
             from penman.models.noop import NoOpModel
             m = NoOpModel(**kw)
